@@ -71,7 +71,7 @@ def _q(x):
     if x == float("inf"):
         return [1, 0]
     if x != x or x < 0:
-        return None
+        return [-1, 1]      # nan / negative bound: a sentinel that equals no expectation
     f = Fraction(x).limit_denominator(10 ** 6)
     if abs(float(f) - x) > 1e-12 * max(abs(x), 1e-300):
         return None
@@ -161,6 +161,22 @@ def _refused(fn, exc_type):
     except Exception:
         return False
     return False
+
+
+def _leaves_ok(x):
+    if isinstance(x, dict):
+        return all(isinstance(k, str) and _leaves_ok(v) for k, v in x.items())
+    if isinstance(x, (list, tuple)):
+        return all(_leaves_ok(v) for v in x)
+    return isinstance(x, (str, bool)) or (isinstance(x, int) and abs(x) < 2 ** 31)
+
+
+def _sanitize(o):
+    """total observation: only strings, booleans and 32-bit integers travel to TLC; anything else the code
+    returned (None, nan, a huge or non-integer number ...) makes the observation a defect ("bad")"""
+    if not o.get("bad") and not _leaves_ok(o):
+        return {"raised": False, "exc": "", "bad": "ill-typed value"}
+    return o
 
 
 def _ok(**kw):
@@ -330,8 +346,8 @@ class World(object):
                 split = []
                 for p in sys_.split(**self.kw(i)):
                     m = _match(p.rxns, [(1, sys_.rxns)])
-                    if m is None:
-                        raise core.MachineryFailure("foreign reaction in split part")
+                    if m is None:   # a part holds a reaction twice / a foreign one: an observation, not a crash
+                        return "unmatched-reactions"
                     split.append({"rx": sorted(k for _, k in m), "ss": sorted(p.substances.keys())})
                 split.sort(key=lambda t: min(t["rx"]) if t["rx"] else 0)
                 return split
@@ -341,12 +357,20 @@ class World(object):
                 for s in names:
                     eff[s] = sorted([ri + 1, _int(n)] for ri, n in sys_.per_reaction_effect_on_substance(s).items())
                 return eff
-            # each of the five queries is observed on its own: a field is its value or "raised:<Exception>"
-            return _ok(split=_call(f_split),
-                       cat=_call(lambda: {k: sorted(v) for k, v in sys_.categorize_substances(**self.kw(i)).items()}),
-                       eq=_call(lambda: sorted([a + 1, b + 1] for a, b in sys_.identify_equilibria())),
-                       part=_call(lambda: {s: sorted(ri + 1 for ri in sys_.substance_participation(s)) for s in names}),
-                       eff=_call(f_eff))
+            # each of the five queries is observed on its own; the first one that fails is named in `fault`
+            # ("<field>:raised:<Exception>") and its field left empty (TLC and the direct comparison look at
+            # `fault` before any value)
+            o = _ok(split=_call(f_split),
+                    cat=_call(lambda: {k: sorted(v) for k, v in sys_.categorize_substances(**self.kw(i)).items()}),
+                    eq=_call(lambda: sorted([a + 1, b + 1] for a, b in sys_.identify_equilibria())),
+                    part=_call(lambda: {s: sorted(ri + 1 for ri in sys_.substance_participation(s)) for s in names}),
+                    eff=_call(f_eff), fault="")
+            for fld in ("split", "cat", "eq", "part", "eff"):
+                if isinstance(o[fld], str):
+                    if not o["fault"]:
+                        o["fault"] = "%s:%s" % (fld, o[fld])
+                    o[fld] = []
+            return o
         if kind == "order":
             last = list(sys_.substances)[-1]
             col, _ = sys_.per_substance_varied(dict(arg), {last: [77]})
@@ -439,7 +463,7 @@ class World(object):
         if fn is None:
             raise core.MachineryFailure("unknown operation %r" % (h,))
         try:
-            return fn(h)
+            return _sanitize(fn(h))
         except core.MachineryFailure:
             raise
         except Exception as exc:
@@ -486,8 +510,10 @@ def disagreement(h, o, exp):
     if o["raised"]:
         return "raised:" + o["exc"]
     x = exp["exp"]
+    if o.get("fault"):
+        return "%s:%s" % (exp["kind"], o["fault"].split(":")[0])
     for k in o:
-        if k in ("raised", "exc", "bad"):
+        if k in ("raised", "exc", "bad", "fault"):
             continue
         if k == "eq" and exp["kind"] == "graph" and not x["eqdef"]:
             continue
@@ -599,10 +625,9 @@ def _slice(ctx, cfg, n_pick, actions, via_tlc=False, min_cases=50, always=None):
             ctx.skip("unencodable")
         elif why:
             last = hist[-1]
-            fld = obs[-1].get(why.split(":")[-1])
             key = {"fn": FN.get(last.get("kind", last["op"]), last["op"]), "clause": why, "cls": c["cls"]}
-            if isinstance(fld, str) and fld.startswith("raised:"):
-                key["exc"] = fld
+            if obs[-1].get("fault"):
+                key["exc"] = obs[-1]["fault"].partition(":")[2]
             ctx.violation(key,
                           {"direction": "spec->code", "case": c, "observed": obs[-1], "expected": c["exp"],
                            "tlc_cfg": "RSysGraph_MC_%s.cfg" % cfg})
